@@ -74,6 +74,127 @@ theorem flatMap_beBytes_length (n : Nat) (vs : List Nat) : (vs.flatMap (beBytes 
 theorem writeChunk_length_small (d : Bytes) (h : d.length < 128) : (writeChunk d).length = 1 + d.length := by
   simp [writeChunk, putUvarint_length_small _ h]
 
+/-! ## inversion of the readers -/
+
+theorem readFull_ok (n : Nat) (r b r' : Bytes) (h : readFull n r = .ok (b, r')) : r = b ++ r' ∧ b.length = n := by
+  unfold readFull at h
+  split at h
+  · cases h
+  · rename_i hl
+    simp only [Res.ok.injEq, Prod.mk.injEq] at h
+    rw [← h.1, ← h.2]
+    exact ⟨(List.take_append_drop n r).symm, by simp only [List.length_take]; omega⟩
+
+/-- `readChunk` accepts exactly `writeChunk d ++ r'`. -/
+theorem readChunk_ok (r d r' : Bytes) (h : readChunk r = .ok (d, r')) : r = writeChunk d ++ r' := by
+  unfold readChunk at h
+  cases hu : readUvarint r with
+  | ok a =>
+    obtain ⟨len, r1⟩ := a
+    rw [hu] at h
+    simp only [Res.ok_bind] at h
+    split at h
+    · cases h
+    · rename_i hmin
+      have hmin : r.length - r1.length = (putUvarint len).length := Decidable.of_not_not hmin
+      split at h
+      · cases h
+      · split at h
+        · cases h
+        · rename_i hlen
+          split at h
+          · cases h
+          · simp only [Res.pure_eq, Res.ok.injEq, Prod.mk.injEq] at h
+            obtain ⟨pre, h1, _, h3⟩ := readUvarint_min r len r1 hu
+            have hpl : pre.length = r.length - r1.length := by rw [h1]; simp
+            have hpre : pre = putUvarint len := h3 (by omega)
+            have hdl : d.length = len := by rw [← h.1]; simp only [List.length_take]; omega
+            unfold writeChunk
+            rw [hdl, ← hpre, h1, ← h.1, ← h.2, List.append_assoc, List.take_append_drop]
+  | error => rw [hu] at h; simp at h
+  | panic => rw [hu] at h; simp at h
+
+theorem readFixed_ok (n : Nat) (r : Bytes) (v : Nat) (r' : Bytes) (h : readFixed n r = .ok (v, r')) :
+    r = beBytes n v ++ r' ∧ v < 256 ^ n := by
+  unfold readFixed at h
+  cases hf : readFull n r with
+  | ok a =>
+    obtain ⟨b, r1⟩ := a
+    rw [hf] at h
+    simp only [Res.ok_bind, Res.pure_eq, Res.ok.injEq, Prod.mk.injEq] at h
+    obtain ⟨h1, h2⟩ := readFull_ok n r b r1 hf
+    rw [← h.1, ← h.2]
+    refine ⟨by rw [beBytes_beNat n b h2]; exact h1, ?_⟩
+    have := beNat_lt b
+    rwa [h2] at this
+  | error => rw [hf] at h; simp at h
+  | panic => rw [hf] at h; simp at h
+
+theorem readFixedN_ok (n : Nat) : ∀ (k : Nat) (r : Bytes) (vs : List Nat) (r' : Bytes),
+    readFixedN n k r = .ok (vs, r') → r = vs.flatMap (beBytes n) ++ r' ∧ vs.length = k ∧ ∀ v ∈ vs, v < 256 ^ n := by
+  intro k
+  induction k with
+  | zero =>
+    intro r vs r' h
+    simp [readFixedN] at h
+    obtain ⟨rfl, rfl⟩ := h
+    simp
+  | succ k ih =>
+    intro r vs r' h
+    simp only [readFixedN] at h
+    cases h1 : readFixed n r with
+    | ok a =>
+      obtain ⟨v, r1⟩ := a
+      rw [h1] at h; simp only [Res.ok_bind] at h
+      cases h2 : readFixedN n k r1 with
+      | ok b =>
+        obtain ⟨ws, r2⟩ := b
+        rw [h2] at h; simp only [Res.ok_bind, Res.pure_eq, Res.ok.injEq, Prod.mk.injEq] at h
+        obtain ⟨e1, l1⟩ := readFixed_ok _ _ _ _ h1
+        obtain ⟨e2, l2, l3⟩ := ih _ _ _ h2
+        rw [← h.1, ← h.2]
+        refine ⟨by rw [e1, e2]; simp, by simp [l2], ?_⟩
+        intro w hw
+        simp only [List.mem_cons] at hw
+        rcases hw with rfl | hw
+        · exact l1
+        · exact l3 w hw
+      | error => rw [h2] at h; simp at h
+      | panic => rw [h2] at h; simp at h
+    | error => rw [h1] at h; simp at h
+    | panic => rw [h1] at h; simp at h
+
+theorem readHeader_ok (magic r : Bytes) (sid : Nat) (r' : Bytes) (h : readHeader magic r = .ok (sid, r')) :
+    r = header magic sid ++ r' ∧ sid < 2 ^ 64 := by
+  unfold readHeader at h
+  cases hf : readFull 2 r with
+  | ok a =>
+    obtain ⟨m, r1⟩ := a
+    rw [hf] at h
+    simp only [Res.ok_bind] at h
+    split at h
+    · cases h
+    · rename_i hm
+      have hm : m = magic := Decidable.of_not_not hm
+      cases hf2 : readFull 8 r1 with
+      | ok a2 =>
+        obtain ⟨s, r2⟩ := a2
+        rw [hf2] at h
+        simp only [Res.ok_bind, Res.pure_eq, Res.ok.injEq, Prod.mk.injEq] at h
+        obtain ⟨h1, _⟩ := readFull_ok 2 r m r1 hf
+        obtain ⟨h3, h4⟩ := readFull_ok 8 r1 s r2 hf2
+        rw [← h.1, ← h.2]
+        refine ⟨?_, ?_⟩
+        · unfold header
+          rw [beBytes_beNat 8 s h4, h1, h3, hm, List.append_assoc]
+        · have := beNat_lt s
+          rw [h4] at this
+          simpa using this
+      | error => rw [hf2] at h; simp at h
+      | panic => rw [hf2] at h; simp at h
+  | error => rw [hf] at h; simp at h
+  | panic => rw [hf] at h; simp at h
+
 /-! ## Round 1 -/
 
 theorem encodeRound1_eq (c : Curve) (m : Round1) (h : m.curveName = c.name) :
@@ -82,13 +203,11 @@ theorem encodeRound1_eq (c : Curve) (m : Round1) (h : m.curveName = c.name) :
   unfold encodeRound1
   rw [if_neg (by simp [h])]
 
-/-- decode ∘ encode = id, even with arbitrary bytes appended. -/
-theorem decodeRound1_encode (c : Curve) (hc : c.WF) (m : Round1) (hm : m.WF c) (enc extra : Bytes)
-    (he : encodeRound1 c m = .ok enc) : decodeRound1 c (enc ++ extra) = .ok m := by
+theorem decodeRound1_encode (c : Curve) (hc : c.WF) (m : Round1) (hm : m.WF c) (enc : Bytes)
+    (he : encodeRound1 c m = .ok enc) : decodeRound1 c enc = .ok m := by
   rw [encodeRound1_eq c m hm.name] at he
   cases he
   unfold decodeRound1
-  simp only [List.append_assoc]
   rw [readHeader_header _ _ _ magic_lengths.1 hm.sid]
   simp only [Res.ok_bind]
   rw [readChunk_write _ _ (by have := hc.name_lt; unfold chunkSizeLimit; omega)
@@ -96,8 +215,10 @@ theorem decodeRound1_encode (c : Curve) (hc : c.WF) (m : Round1) (hm : m.WF c) (
   simp only [Res.ok_bind, ne_eq, not_true_eq_false, if_false]
   rw [readFixed_append _ _ _ hm.ax]
   simp only [Res.ok_bind]
-  rw [readFixed_append _ _ _ hm.ay]
-  simp only [Res.ok_bind, Res.pure_eq]
+  have := readFixed_append c.byteLen m.ay [] hm.ay
+  rw [List.append_nil] at this
+  rw [this]
+  simp only [Res.ok_bind, Res.pure_eq, not_true_eq_false, if_false]
   rw [← hm.name]
 
 theorem encodeRound1_length (c : Curve) (hc : c.WF) (m : Round1) (enc : Bytes) (he : encodeRound1 c m = .ok enc) :
@@ -116,7 +237,7 @@ theorem decodeRound1_noPanic (c : Curve) (data : Bytes) : NoPanic (decodeRound1 
   apply NoPanic.ite; · simp
   apply NoPanic.bind (readFixed_noPanic _ _); intro x
   apply NoPanic.bind (readFixed_noPanic _ _); intro y
-  simp
+  apply NoPanic.ite <;> simp
 
 /-- A round-1 message produced for curve `c'` is rejected by the decoder of a
 curve with another name. -/
@@ -135,114 +256,9 @@ theorem decodeRound1_other_curve (c c' : Curve) (hc' : c'.WF) (m : Round1) (hm :
     simp only [Res.ok_bind, ne_eq]
     rw [if_pos hne]
 
-/-! ### inversion of the readers (for canonicity at the documented size) -/
-
-theorem readFull_ok (n : Nat) (r b r' : Bytes) (h : readFull n r = .ok (b, r')) : r = b ++ r' ∧ b.length = n := by
-  unfold readFull at h
-  split at h
-  · cases h
-  · rename_i hl
-    simp only [Res.ok.injEq, Prod.mk.injEq] at h
-    rw [← h.1, ← h.2]
-    exact ⟨(List.take_append_drop n r).symm, by simp only [List.length_take]; omega⟩
-
-theorem readUvarintGo_ok (r : Bytes) : ∀ (i x v : Nat) (r' : Bytes), readUvarintGo i x r = .ok (v, r') →
-    ∃ pre, r = pre ++ r' ∧ 1 ≤ pre.length ∧ (pre.length = 1 → i = 0 → x = 0 → pre = putUvarint v) := by
-  induction r with
-  | nil => intro i x v r' h; simp [readUvarintGo] at h
-  | cons b rest ih =>
-    intro i x v r' h
-    simp only [readUvarintGo] at h
-    split at h
-    · cases h
-    · split at h
-      · rename_i hb
-        split at h
-        · cases h
-        · simp only [Res.ok.injEq, Prod.mk.injEq] at h
-          refine ⟨[b], by rw [← h.2]; rfl, by simp, ?_⟩
-          intro _ hi hx
-          subst hi hx
-          rw [← h.1, putUvarint]
-          simp only [Nat.mul_zero, Nat.pow_zero, Nat.mul_one, Nat.zero_add]
-          rw [if_pos hb]
-          simp
-      · obtain ⟨pre, h1, h2, _⟩ := ih _ _ _ _ h
-        refine ⟨b :: pre, by rw [h1]; rfl, by simp, ?_⟩
-        intro hl
-        simp only [List.length_cons] at hl
-        omega
-
-theorem readChunk_ok (r d r' : Bytes) (h : readChunk r = .ok (d, r')) :
-    ∃ pre, r = pre ++ (d ++ r') ∧ 1 ≤ pre.length ∧ (pre.length = 1 → pre = putUvarint d.length) := by
-  unfold readChunk readUvarint at h
-  cases hu : readUvarintGo 0 0 r with
-  | ok a =>
-    obtain ⟨len, r1⟩ := a
-    rw [hu] at h
-    simp only [Res.ok_bind] at h
-    split at h
-    · cases h
-    · split at h
-      · cases h
-      · rename_i hlen
-        split at h
-        · cases h
-        · simp only [Res.pure_eq, Res.ok.injEq, Prod.mk.injEq] at h
-          obtain ⟨pre, h1, h2, h3⟩ := readUvarintGo_ok r 0 0 len r1 hu
-          have hdl : d.length = len := by rw [← h.1]; simp only [List.length_take]; omega
-          refine ⟨pre, ?_, h2, ?_⟩
-          · rw [h1, ← h.1, ← h.2, List.take_append_drop]
-          · intro hp; rw [hdl]; exact h3 hp rfl rfl
-  | error => rw [hu] at h; simp at h
-  | panic => rw [hu] at h; simp at h
-
-theorem readFixed_ok (n : Nat) (r : Bytes) (v : Nat) (r' : Bytes) (h : readFixed n r = .ok (v, r')) :
-    ∃ b, r = b ++ r' ∧ b.length = n ∧ v = beNat b := by
-  unfold readFixed at h
-  cases hf : readFull n r with
-  | ok a =>
-    obtain ⟨b, r1⟩ := a
-    rw [hf] at h
-    simp only [Res.ok_bind, Res.pure_eq, Res.ok.injEq, Prod.mk.injEq] at h
-    obtain ⟨h1, h2⟩ := readFull_ok n r b r1 hf
-    exact ⟨b, by rw [h1, h.2], h2, h.1.symm⟩
-  | error => rw [hf] at h; simp at h
-  | panic => rw [hf] at h; simp at h
-
-theorem readHeader_ok (magic r : Bytes) (sid : Nat) (r' : Bytes) (h : readHeader magic r = .ok (sid, r')) :
-    ∃ s, r = magic ++ (s ++ r') ∧ s.length = 8 ∧ sid = beNat s ∧ magic.length = 2 := by
-  unfold readHeader at h
-  cases hf : readFull 2 r with
-  | ok a =>
-    obtain ⟨m, r1⟩ := a
-    rw [hf] at h
-    simp only [Res.ok_bind] at h
-    split at h
-    · cases h
-    · rename_i hm
-      have hm : m = magic := Decidable.of_not_not hm
-      cases hf2 : readFull 8 r1 with
-      | ok a2 =>
-        obtain ⟨s, r2⟩ := a2
-        rw [hf2] at h
-        simp only [Res.ok_bind, Res.pure_eq, Res.ok.injEq, Prod.mk.injEq] at h
-        obtain ⟨h1, h2⟩ := readFull_ok 2 r m r1 hf
-        obtain ⟨h3, h4⟩ := readFull_ok 8 r1 s r2 hf2
-        refine ⟨s, ?_, h4, h.1.symm, by rw [← hm]; exact h2⟩
-        rw [h1, h3, hm, h.2]
-      | error => rw [hf2] at h; simp at h
-      | panic => rw [hf2] at h; simp at h
-  | error => rw [hf] at h; simp at h
-  | panic => rw [hf] at h; simp at h
-
-/-- At the documented size the round-1 format is canonical: bytes of that
-length that decode are exactly the encoding of what they decode to (the only
-accepted non-canonical inputs are longer: trailing bytes, padded length
-prefix). -/
-theorem encodeRound1_decode (c : Curve) (hc : c.WF) (data : Bytes) (m : Round1)
-    (h : decodeRound1 c data = .ok m) (hlen : data.length = 2 + 8 + 1 + c.name.length + 2 * c.byteLen) :
-    encodeRound1 c m = .ok data := by
+/-- Round 1 is canonical: whatever decodes re-encodes to the very same bytes. -/
+theorem encodeRound1_decode (c : Curve) (data : Bytes) (m : Round1) (h : decodeRound1 c data = .ok m) :
+    encodeRound1 c m = .ok data ∧ m.WF c := by
   unfold decodeRound1 at h
   cases h1 : readHeader magicR1 data with
   | ok a1 =>
@@ -263,25 +279,22 @@ theorem encodeRound1_decode (c : Curve) (hc : c.WF) (data : Bytes) (m : Round1)
           cases h4 : readFixed c.byteLen r2 with
           | ok a4 =>
             obtain ⟨y, r3⟩ := a4
-            rw [h4] at h; simp only [Res.ok_bind, Res.pure_eq, Res.ok.injEq] at h
-            obtain ⟨s, e1, ls, es, lm⟩ := readHeader_ok _ _ _ _ h1
-            obtain ⟨pre, e2, lp, ep⟩ := readChunk_ok _ _ _ h2
-            obtain ⟨bx, e3, lx, ex⟩ := readFixed_ok _ _ _ _ h3
-            obtain ⟨by', e4, ly, ey⟩ := readFixed_ok _ _ _ _ h4
-            -- length accounting: one-byte prefix, nothing after the second coordinate
-            have htot : data.length = 2 + (8 + (pre.length + (name.length + (c.byteLen + (c.byteLen + r3.length))))) := by
-              rw [e1, e2, e3, e4]
-              simp only [List.length_append, lm, ls, lx, ly]
-            rw [hn] at htot
-            have hp1 : pre.length = 1 := by omega
-            have hr3 : r3 = [] := List.eq_nil_of_length_eq_zero (by omega)
-            rw [← h]
-            unfold encodeRound1
-            simp only
-            rw [if_neg (by simp [hn])]
-            rw [e1, e2, e3, e4, hr3, ep hp1, hn, es, ex, ey]
-            simp only [header, writeChunk, List.append_assoc, List.append_nil]
-            rw [beBytes_beNat 8 s ls, beBytes_beNat _ bx lx, beBytes_beNat _ by' ly]
+            rw [h4] at h; simp only [Res.ok_bind] at h
+            split at h
+            · cases h
+            · rename_i hr3
+              have hr3 : r3 = [] := Decidable.of_not_not hr3
+              simp only [Res.pure_eq, Res.ok.injEq] at h
+              obtain ⟨e1, ls⟩ := readHeader_ok _ _ _ _ h1
+              have e2 := readChunk_ok _ _ _ h2
+              obtain ⟨e3, lx⟩ := readFixed_ok _ _ _ _ h3
+              obtain ⟨e4, ly⟩ := readFixed_ok _ _ _ _ h4
+              rw [← h]
+              refine ⟨?_, ⟨ls, hn, lx, ly⟩⟩
+              rw [encodeRound1_eq c _ hn]
+              simp only
+              rw [e1, e2, e3, e4, hr3, hn]
+              simp
           | error => rw [h4] at h; simp at h
           | panic => rw [h4] at h; simp at h
         | error => rw [h3] at h; simp at h
@@ -306,12 +319,11 @@ theorem senderSetup_inner_length (c : Curve) (hc : c.WF) (s : GarblerSession) :
   simp [writeChunk_length_small _ hc.name_lt]
   omega
 
-theorem decodeSenderSetup_encode (c : Curve) (hc : c.WF) (s : GarblerSession) (hs : s.WF c) (inner extra : Bytes)
-    (he : encodeSenderSetup c s = .ok inner) : decodeSenderSetup c s.sid (inner ++ extra) = .ok s := by
+theorem decodeSenderSetup_encode (c : Curve) (hc : c.WF) (s : GarblerSession) (hs : s.WF c) (inner : Bytes)
+    (he : encodeSenderSetup c s = .ok inner) : decodeSenderSetup c s.sid inner = .ok s := by
   rw [encodeSenderSetup_eq c s hs.name] at he
   cases he
   unfold decodeSenderSetup
-  simp only [List.append_assoc]
   rw [readChunk_write _ _ (by have := hc.name_lt; unfold chunkSizeLimit; omega)
     (by intro h; have := hc.name_pos; simp at h; simp [h.1] at this)]
   simp only [Res.ok_bind, ne_eq, not_true_eq_false, if_false]
@@ -319,25 +331,29 @@ theorem decodeSenderSetup_encode (c : Curve) (hc : c.WF) (s : GarblerSession) (h
   rw [readFixed_append _ _ _ hs.ax]; simp only [Res.ok_bind]
   rw [readFixed_append _ _ _ hs.ay]; simp only [Res.ok_bind]
   rw [readFixed_append _ _ _ hs.ainvx]; simp only [Res.ok_bind]
-  rw [readFixed_append _ _ _ hs.ainvy]; simp only [Res.ok_bind, Res.pure_eq]
+  have := readFixed_append c.byteLen s.ainvy [] hs.ainvy
+  rw [List.append_nil] at this
+  rw [this]; simp only [Res.ok_bind, Res.pure_eq, not_true_eq_false, if_false]
   rw [← hs.name]
 
-theorem decodeGarblerSession_encode (c : Curve) (hc : c.WF) (s : GarblerSession) (hs : s.WF c) (enc extra : Bytes)
-    (he : encodeGarblerSession c s = .ok enc) : decodeGarblerSession c (enc ++ extra) = .ok s := by
+theorem decodeGarblerSession_encode (c : Curve) (hc : c.WF) (s : GarblerSession) (hs : s.WF c) (enc : Bytes)
+    (he : encodeGarblerSession c s = .ok enc) : decodeGarblerSession c enc = .ok s := by
   unfold encodeGarblerSession at he
   rw [encodeSenderSetup_eq c s hs.name] at he
   simp only [Res.ok_bind, Res.pure_eq] at he
   cases he
   unfold decodeGarblerSession
-  simp only [List.append_assoc]
   rw [readHeader_header _ _ _ magic_lengths.2.2.2.1 hs.sid]
   simp only [Res.ok_bind]
   have hl := senderSetup_inner_length c hc s
-  rw [readChunk_write _ _ (by rw [hl]; have := hc.name_lt; have := hc.bl_le; unfold chunkSizeLimit; omega)
-    (append_ne_nil_of_length_pos _ _ (by rw [hl]; omega))]
-  simp only [Res.ok_bind]
-  have := decodeSenderSetup_encode c hc s hs _ [] (encodeSenderSetup_eq c s hs.name)
-  simpa using this
+  have hrc := readChunk_write (writeChunk c.name ++ (beBytes c.byteLen s.scalar ++ (beBytes c.byteLen s.ax ++
+      (beBytes c.byteLen s.ay ++ (beBytes c.byteLen s.ainvx ++ beBytes c.byteLen s.ainvy))))) []
+    (by rw [hl]; have := hc.name_lt; have := hc.bl_le; unfold chunkSizeLimit; omega)
+    (append_ne_nil_of_length_pos _ _ (by rw [hl]; omega))
+  rw [List.append_nil] at hrc
+  rw [hrc]
+  simp only [Res.ok_bind, ne_eq, not_true_eq_false, if_false]
+  exact decodeSenderSetup_encode c hc s hs _ (encodeSenderSetup_eq c s hs.name)
 
 theorem decodeSenderSetup_noPanic (c : Curve) (sid : Nat) (chunk : Bytes) : NoPanic (decodeSenderSetup c sid chunk) := by
   unfold decodeSenderSetup
@@ -348,30 +364,34 @@ theorem decodeSenderSetup_noPanic (c : Curve) (sid : Nat) (chunk : Bytes) : NoPa
   apply NoPanic.bind (readFixed_noPanic _ _); intro x3
   apply NoPanic.bind (readFixed_noPanic _ _); intro x4
   apply NoPanic.bind (readFixed_noPanic _ _); intro x5
-  simp
+  apply NoPanic.ite <;> simp
 
 theorem decodeGarblerSession_noPanic (c : Curve) (data : Bytes) : NoPanic (decodeGarblerSession c data) := by
   unfold decodeGarblerSession
   apply NoPanic.bind (readHeader_noPanic _ _); intro a
   apply NoPanic.bind (readChunk_noPanic _); intro b
+  apply NoPanic.ite; · simp
   exact decodeSenderSetup_noPanic _ _ _
 
 theorem decodeGarblerSession_other_curve (c c' : Curve) (hc' : c'.WF) (s : GarblerSession) (hs : s.sid < 2 ^ 64)
-    (enc extra : Bytes) (he : encodeGarblerSession c' s = .ok enc) (hne : c'.name ≠ c.name) :
-    decodeGarblerSession c (enc ++ extra) = .error := by
+    (enc : Bytes) (he : encodeGarblerSession c' s = .ok enc) (hne : c'.name ≠ c.name) :
+    decodeGarblerSession c enc = .error := by
   unfold encodeGarblerSession encodeSenderSetup at he
   split at he
   · cases he
   · simp only [Res.ok_bind, Res.pure_eq] at he
     cases he
     unfold decodeGarblerSession
-    simp only [List.append_assoc]
     rw [readHeader_header _ _ _ magic_lengths.2.2.2.1 hs]
     simp only [Res.ok_bind]
     have hl := senderSetup_inner_length c' hc' s
-    rw [readChunk_write _ _ (by rw [hl]; have := hc'.name_lt; have := hc'.bl_le; unfold chunkSizeLimit; omega)
-      (append_ne_nil_of_length_pos _ _ (by rw [hl]; omega))]
-    simp only [Res.ok_bind]
+    have hrc := readChunk_write (writeChunk c'.name ++ (beBytes c'.byteLen s.scalar ++ (beBytes c'.byteLen s.ax ++
+        (beBytes c'.byteLen s.ay ++ (beBytes c'.byteLen s.ainvx ++ beBytes c'.byteLen s.ainvy))))) []
+      (by rw [hl]; have := hc'.name_lt; have := hc'.bl_le; unfold chunkSizeLimit; omega)
+      (append_ne_nil_of_length_pos _ _ (by rw [hl]; omega))
+    rw [List.append_nil] at hrc
+    rw [hrc]
+    simp only [Res.ok_bind, ne_eq, not_true_eq_false, if_false]
     unfold decodeSenderSetup
     rw [readChunk_write _ _ (by have := hc'.name_lt; unfold chunkSizeLimit; omega)
       (by intro h; have := hc'.name_pos; simp at h; simp [h.1] at this)]
@@ -392,6 +412,91 @@ theorem encodeGarblerSession_length (c : Curve) (hc : c.WF) (s : GarblerSession)
     simp [magicGS]
     omega
 
+/-- The garbler-session format is canonical. -/
+theorem encodeGarblerSession_decode (c : Curve) (data : Bytes) (s : GarblerSession)
+    (h : decodeGarblerSession c data = .ok s) : encodeGarblerSession c s = .ok data ∧ s.WF c := by
+  unfold decodeGarblerSession at h
+  cases h1 : readHeader magicGS data with
+  | ok a1 =>
+    obtain ⟨sid, r⟩ := a1
+    rw [h1] at h; simp only [Res.ok_bind] at h
+    cases h2 : readChunk r with
+    | ok a2 =>
+      obtain ⟨chunk, rest⟩ := a2
+      rw [h2] at h; simp only [Res.ok_bind] at h
+      split at h
+      · cases h
+      · rename_i hrest
+        have hrest : rest = [] := Decidable.of_not_not hrest
+        unfold decodeSenderSetup at h
+        cases h3 : readChunk chunk with
+        | ok a3 =>
+          obtain ⟨name, q1⟩ := a3
+          rw [h3] at h; simp only [Res.ok_bind] at h
+          split at h
+          · cases h
+          · rename_i hn
+            have hn : name = c.name := Decidable.of_not_not hn
+            cases f1 : readFixed c.byteLen q1 with
+            | ok b1 =>
+              obtain ⟨v1, q2⟩ := b1
+              rw [f1] at h; simp only [Res.ok_bind] at h
+              cases f2 : readFixed c.byteLen q2 with
+              | ok b2 =>
+                obtain ⟨v2, q3⟩ := b2
+                rw [f2] at h; simp only [Res.ok_bind] at h
+                cases f3 : readFixed c.byteLen q3 with
+                | ok b3 =>
+                  obtain ⟨v3, q4⟩ := b3
+                  rw [f3] at h; simp only [Res.ok_bind] at h
+                  cases f4 : readFixed c.byteLen q4 with
+                  | ok b4 =>
+                    obtain ⟨v4, q5⟩ := b4
+                    rw [f4] at h; simp only [Res.ok_bind] at h
+                    cases f5 : readFixed c.byteLen q5 with
+                    | ok b5 =>
+                      obtain ⟨v5, q6⟩ := b5
+                      rw [f5] at h; simp only [Res.ok_bind] at h
+                      split at h
+                      · cases h
+                      · rename_i hq6
+                        have hq6 : q6 = [] := Decidable.of_not_not hq6
+                        simp only [Res.pure_eq, Res.ok.injEq] at h
+                        obtain ⟨e1, ls⟩ := readHeader_ok _ _ _ _ h1
+                        have e2 := readChunk_ok _ _ _ h2
+                        have e3 := readChunk_ok _ _ _ h3
+                        obtain ⟨g1, l1⟩ := readFixed_ok _ _ _ _ f1
+                        obtain ⟨g2, l2⟩ := readFixed_ok _ _ _ _ f2
+                        obtain ⟨g3, l3⟩ := readFixed_ok _ _ _ _ f3
+                        obtain ⟨g4, l4⟩ := readFixed_ok _ _ _ _ f4
+                        obtain ⟨g5, l5⟩ := readFixed_ok _ _ _ _ f5
+                        rw [← h]
+                        refine ⟨?_, ⟨ls, hn, l1, l2, l3, l4, l5⟩⟩
+                        unfold encodeGarblerSession
+                        rw [encodeSenderSetup_eq c _ hn]
+                        simp only [Res.ok_bind, Res.pure_eq]
+                        have hchunk : chunk = writeChunk c.name ++ (beBytes c.byteLen v1 ++ (beBytes c.byteLen v2 ++
+                            (beBytes c.byteLen v3 ++ (beBytes c.byteLen v4 ++ beBytes c.byteLen v5)))) := by
+                          rw [e3, g1, g2, g3, g4, g5, hq6, hn]; simp
+                        rw [e1, e2, hrest, ← hchunk]
+                        simp
+                    | error => rw [f5] at h; simp at h
+                    | panic => rw [f5] at h; simp at h
+                  | error => rw [f4] at h; simp at h
+                  | panic => rw [f4] at h; simp at h
+                | error => rw [f3] at h; simp at h
+                | panic => rw [f3] at h; simp at h
+              | error => rw [f2] at h; simp at h
+              | panic => rw [f2] at h; simp at h
+            | error => rw [f1] at h; simp at h
+            | panic => rw [f1] at h; simp at h
+        | error => rw [h3] at h; simp at h
+        | panic => rw [h3] at h; simp at h
+    | error => rw [h2] at h; simp at h
+    | panic => rw [h2] at h; simp at h
+  | error => rw [h1] at h; simp at h
+  | panic => rw [h1] at h; simp at h
+
 /-! ## Evaluator session -/
 
 theorem encodeChoiceBundle_eq (c : Curve) (s : EvaluatorSession) (hs : s.WF c) :
@@ -410,45 +515,48 @@ theorem choiceBundle_inner_length (c : Curve) (hc : c.WF) (s : EvaluatorSession)
   rw [Nat.mul_comm c.byteLen 256]
   omega
 
-theorem decodeChoiceBundle_encode (c : Curve) (hc : c.WF) (s : EvaluatorSession) (hs : s.WF c) (inner extra : Bytes)
-    (he : encodeChoiceBundle c s = .ok inner) : decodeChoiceBundle c s.sid (inner ++ extra) = .ok s := by
+theorem decodeChoiceBundle_encode (c : Curve) (hc : c.WF) (s : EvaluatorSession) (hs : s.WF c) (inner : Bytes)
+    (he : encodeChoiceBundle c s = .ok inner) : decodeChoiceBundle c s.sid inner = .ok s := by
   rw [encodeChoiceBundle_eq c s hs] at he
   cases he
   unfold decodeChoiceBundle
-  simp only [List.append_assoc]
   rw [readChunk_write _ _ (by have := hc.name_lt; unfold chunkSizeLimit; omega)
     (by intro h; have := hc.name_pos; simp at h; simp [h.1] at this)]
   simp only [Res.ok_bind, ne_eq, not_true_eq_false, if_false]
   rw [readFixed_append _ _ _ hs.ax]; simp only [Res.ok_bind]
   rw [readFixed_append _ _ _ hs.ay]; simp only [Res.ok_bind]
-  have hN := readFixedN_append c.byteLen s.scalars (bitsToBytes s.bits ++ extra) hs.scalars
+  have hN := readFixedN_append c.byteLen s.scalars (bitsToBytes s.bits) hs.scalars
   rw [hs.count] at hN
   rw [hN]; simp only [Res.ok_bind]
   have hbl : (bitsToBytes s.bits).length = signBytes := by rw [bitsToBytes_length, hs.bits]; rfl
-  rw [readSome_full signBytes _ _ hbl (by decide)]
-  simp only [Res.ok_bind]
+  have hrf := readFull_append signBytes (bitsToBytes s.bits) [] hbl
+  rw [List.append_nil] at hrf
+  rw [hrf]
+  simp only [Res.ok_bind, not_true_eq_false, if_false]
   have hrt : bytesToBits (bitsToBytes s.bits) = s.bits := bytesToBits_bitsToBytes _ (by rw [hs.bits]; rfl)
   rw [hrt, if_neg (by rw [hs.bits]; simp)]
   simp only [Res.pure_eq]
   have : s.bits.take nBits = s.bits := by rw [← hs.bits]; exact List.take_length
   rw [this, ← hs.name]
 
-theorem decodeEvaluatorSession_encode (c : Curve) (hc : c.WF) (s : EvaluatorSession) (hs : s.WF c) (enc extra : Bytes)
-    (he : encodeEvaluatorSession c s = .ok enc) : decodeEvaluatorSession c (enc ++ extra) = .ok s := by
+theorem decodeEvaluatorSession_encode (c : Curve) (hc : c.WF) (s : EvaluatorSession) (hs : s.WF c) (enc : Bytes)
+    (he : encodeEvaluatorSession c s = .ok enc) : decodeEvaluatorSession c enc = .ok s := by
   unfold encodeEvaluatorSession at he
   rw [encodeChoiceBundle_eq c s hs] at he
   simp only [Res.ok_bind, Res.pure_eq] at he
   cases he
   unfold decodeEvaluatorSession
-  simp only [List.append_assoc]
   rw [readHeader_header _ _ _ magic_lengths.2.2.2.2 hs.sid]
   simp only [Res.ok_bind]
   have hl := choiceBundle_inner_length c hc s hs
-  rw [readChunk_write _ _ (by rw [hl]; have := hc.name_lt; have := hc.bl_le; unfold chunkSizeLimit nBits signBytes; omega)
-    (append_ne_nil_of_length_pos _ _ (by rw [hl]; omega))]
-  simp only [Res.ok_bind]
-  have := decodeChoiceBundle_encode c hc s hs _ [] (encodeChoiceBundle_eq c s hs)
-  simpa using this
+  have hrc := readChunk_write (writeChunk c.name ++ (beBytes c.byteLen s.ax ++ (beBytes c.byteLen s.ay ++
+      (s.scalars.flatMap (beBytes c.byteLen) ++ bitsToBytes s.bits)))) []
+    (by rw [hl]; have := hc.name_lt; have := hc.bl_le; unfold chunkSizeLimit nBits signBytes; omega)
+    (append_ne_nil_of_length_pos _ _ (by rw [hl]; omega))
+  rw [List.append_nil] at hrc
+  rw [hrc]
+  simp only [Res.ok_bind, ne_eq, not_true_eq_false, if_false]
+  exact decodeChoiceBundle_encode c hc s hs _ (encodeChoiceBundle_eq c s hs)
 
 theorem decodeChoiceBundle_noPanic (c : Curve) (sid : Nat) (chunk : Bytes) : NoPanic (decodeChoiceBundle c sid chunk) := by
   unfold decodeChoiceBundle
@@ -457,30 +565,35 @@ theorem decodeChoiceBundle_noPanic (c : Curve) (sid : Nat) (chunk : Bytes) : NoP
   apply NoPanic.bind (readFixed_noPanic _ _); intro x1
   apply NoPanic.bind (readFixed_noPanic _ _); intro x2
   apply NoPanic.bind (readFixedN_noPanic _ _ _); intro x3
-  apply NoPanic.bind (readSome_noPanic _ _); intro x4
+  apply NoPanic.bind (readFull_noPanic _ _); intro x4
+  apply NoPanic.ite; · simp
   apply NoPanic.ite <;> simp
 
 theorem decodeEvaluatorSession_noPanic (c : Curve) (data : Bytes) : NoPanic (decodeEvaluatorSession c data) := by
   unfold decodeEvaluatorSession
   apply NoPanic.bind (readHeader_noPanic _ _); intro a
   apply NoPanic.bind (readChunk_noPanic _); intro b
+  apply NoPanic.ite; · simp
   exact decodeChoiceBundle_noPanic _ _ _
 
 theorem decodeEvaluatorSession_other_curve (c c' : Curve) (hc' : c'.WF) (s : EvaluatorSession) (hs : s.WF c')
-    (enc extra : Bytes) (he : encodeEvaluatorSession c' s = .ok enc) (hne : c'.name ≠ c.name) :
-    decodeEvaluatorSession c (enc ++ extra) = .error := by
+    (enc : Bytes) (he : encodeEvaluatorSession c' s = .ok enc) (hne : c'.name ≠ c.name) :
+    decodeEvaluatorSession c enc = .error := by
   unfold encodeEvaluatorSession at he
   rw [encodeChoiceBundle_eq c' s hs] at he
   simp only [Res.ok_bind, Res.pure_eq] at he
   cases he
   unfold decodeEvaluatorSession
-  simp only [List.append_assoc]
   rw [readHeader_header _ _ _ magic_lengths.2.2.2.2 hs.sid]
   simp only [Res.ok_bind]
   have hl := choiceBundle_inner_length c' hc' s hs
-  rw [readChunk_write _ _ (by rw [hl]; have := hc'.name_lt; have := hc'.bl_le; unfold chunkSizeLimit nBits signBytes; omega)
-    (append_ne_nil_of_length_pos _ _ (by rw [hl]; omega))]
-  simp only [Res.ok_bind]
+  have hrc := readChunk_write (writeChunk c'.name ++ (beBytes c'.byteLen s.ax ++ (beBytes c'.byteLen s.ay ++
+      (s.scalars.flatMap (beBytes c'.byteLen) ++ bitsToBytes s.bits)))) []
+    (by rw [hl]; have := hc'.name_lt; have := hc'.bl_le; unfold chunkSizeLimit nBits signBytes; omega)
+    (append_ne_nil_of_length_pos _ _ (by rw [hl]; omega))
+  rw [List.append_nil] at hrc
+  rw [hrc]
+  simp only [Res.ok_bind, ne_eq, not_true_eq_false, if_false]
   unfold decodeChoiceBundle
   rw [readChunk_write _ _ (by have := hc'.name_lt; unfold chunkSizeLimit; omega)
     (by intro h; have := hc'.name_pos; simp at h; simp [h.1] at this)]
@@ -501,40 +614,91 @@ theorem encodeEvaluatorSession_length (c : Curve) (hc : c.WF) (s : EvaluatorSess
   simp [magicES]
   omega
 
-/-- The bit field is read with a plain `Read`: a chunk that stops `signBytes - j`
-bytes early (0 < j < 32 bytes of the bit field present) is ACCEPTED, the
-missing bytes read as zero. -/
-theorem decodeChoiceBundle_short_bits (c : Curve) (hc : c.WF) (s : EvaluatorSession) (hs : s.WF c) (j : Nat)
-    (hj : 0 < j) (hj2 : j < signBytes) :
-    decodeChoiceBundle c s.sid (writeChunk c.name ++ (beBytes c.byteLen s.ax ++ (beBytes c.byteLen s.ay ++
-      (s.scalars.flatMap (beBytes c.byteLen) ++ (bitsToBytes s.bits).take j)))) =
-    .ok { s with bits := (bytesToBits ((bitsToBytes s.bits).take j ++ List.replicate (signBytes - j) 0)).take nBits } := by
-  unfold decodeChoiceBundle
-  rw [readChunk_write _ _ (by have := hc.name_lt; unfold chunkSizeLimit; omega)
-    (by intro h; have := hc.name_pos; simp at h; simp [h.1] at this)]
-  simp only [Res.ok_bind, ne_eq, not_true_eq_false, if_false]
-  rw [readFixed_append _ _ _ hs.ax]; simp only [Res.ok_bind]
-  rw [readFixed_append _ _ _ hs.ay]; simp only [Res.ok_bind]
-  have hN := readFixedN_append c.byteLen s.scalars ((bitsToBytes s.bits).take j) hs.scalars
-  rw [hs.count] at hN
-  rw [hN]; simp only [Res.ok_bind]
-  have hbl : (bitsToBytes s.bits).length = signBytes := by rw [bitsToBytes_length, hs.bits]; rfl
-  have htl : ((bitsToBytes s.bits).take j).length = j := by simp only [List.length_take, hbl]; omega
-  unfold readSome
-  have hne : ((bitsToBytes s.bits).take j).isEmpty = false := by
-    cases h : (bitsToBytes s.bits).take j with
-    | nil => rw [h] at htl; simp at htl; omega
-    | cons x xs => rfl
-  rw [hne]
-  simp only [Bool.false_eq_true, if_false, Res.ok_bind]
-  have ht2 : ((bitsToBytes s.bits).take j).take signBytes = (bitsToBytes s.bits).take j := by
-    rw [List.take_of_length_le (by rw [htl]; omega)]
-  rw [ht2, htl]
-  have hlen : (bytesToBits ((bitsToBytes s.bits).take j ++ List.replicate (signBytes - j) 0)).length = nBits := by
-    rw [bytesToBits_length]; simp only [List.length_append, htl, List.length_replicate]; simp only [signBytes, nBits] at hj2 ⊢; omega
-  rw [if_neg (by rw [hlen]; simp)]
-  simp only [Res.pure_eq]
-  rw [← hs.name]
+/-- The evaluator-session format is canonical. -/
+theorem encodeEvaluatorSession_decode (c : Curve) (data : Bytes) (s : EvaluatorSession)
+    (h : decodeEvaluatorSession c data = .ok s) : encodeEvaluatorSession c s = .ok data ∧ s.WF c := by
+  unfold decodeEvaluatorSession at h
+  cases h1 : readHeader magicES data with
+  | ok a1 =>
+    obtain ⟨sid, r⟩ := a1
+    rw [h1] at h; simp only [Res.ok_bind] at h
+    cases h2 : readChunk r with
+    | ok a2 =>
+      obtain ⟨chunk, rest⟩ := a2
+      rw [h2] at h; simp only [Res.ok_bind] at h
+      split at h
+      · cases h
+      · rename_i hrest
+        have hrest : rest = [] := Decidable.of_not_not hrest
+        unfold decodeChoiceBundle at h
+        cases h3 : readChunk chunk with
+        | ok a3 =>
+          obtain ⟨name, q1⟩ := a3
+          rw [h3] at h; simp only [Res.ok_bind] at h
+          split at h
+          · cases h
+          · rename_i hn
+            have hn : name = c.name := Decidable.of_not_not hn
+            cases f1 : readFixed c.byteLen q1 with
+            | ok b1 =>
+              obtain ⟨v1, q2⟩ := b1
+              rw [f1] at h; simp only [Res.ok_bind] at h
+              cases f2 : readFixed c.byteLen q2 with
+              | ok b2 =>
+                obtain ⟨v2, q3⟩ := b2
+                rw [f2] at h; simp only [Res.ok_bind] at h
+                cases f3 : readFixedN c.byteLen nBits q3 with
+                | ok b3 =>
+                  obtain ⟨scalars, q4⟩ := b3
+                  rw [f3] at h; simp only [Res.ok_bind] at h
+                  cases f4 : readFull signBytes q4 with
+                  | ok b4 =>
+                    obtain ⟨raw, q5⟩ := b4
+                    rw [f4] at h; simp only [Res.ok_bind] at h
+                    split at h
+                    · cases h
+                    · rename_i hq5
+                      have hq5 : q5 = [] := Decidable.of_not_not hq5
+                      split at h
+                      · cases h
+                      · simp only [Res.pure_eq, Res.ok.injEq] at h
+                        obtain ⟨e1, ls⟩ := readHeader_ok _ _ _ _ h1
+                        have e2 := readChunk_ok _ _ _ h2
+                        have e3 := readChunk_ok _ _ _ h3
+                        obtain ⟨g1, l1⟩ := readFixed_ok _ _ _ _ f1
+                        obtain ⟨g2, l2⟩ := readFixed_ok _ _ _ _ f2
+                        obtain ⟨g3, l3, l3'⟩ := readFixedN_ok _ _ _ _ _ f3
+                        obtain ⟨g4, l4⟩ := readFull_ok _ _ _ _ f4
+                        have hbits : (bytesToBits raw).take nBits = bytesToBits raw := by
+                          apply List.take_of_length_le
+                          rw [bytesToBits_length, l4]; decide
+                        have hbl : (bytesToBits raw).length = nBits := by rw [bytesToBits_length, l4]; rfl
+                        have hwf : EvaluatorSession.WF c ⟨sid, name, v1, v2, scalars, (bytesToBits raw).take nBits⟩ :=
+                          ⟨ls, hn, l1, l2, l3, l3', by rw [hbits]; exact hbl⟩
+                        rw [← h]
+                        refine ⟨?_, hwf⟩
+                        unfold encodeEvaluatorSession
+                        rw [encodeChoiceBundle_eq c _ hwf]
+                        simp only [Res.ok_bind, Res.pure_eq]
+                        have hchunk : chunk = writeChunk c.name ++ (beBytes c.byteLen v1 ++ (beBytes c.byteLen v2 ++
+                            (scalars.flatMap (beBytes c.byteLen) ++ bitsToBytes ((bytesToBits raw).take nBits)))) := by
+                          rw [hbits, bitsToBytes_bytesToBits, e3, g1, g2, g3, g4, hq5, hn]; simp
+                        rw [e1, e2, hrest, ← hchunk]
+                        simp
+                  | error => rw [f4] at h; simp at h
+                  | panic => rw [f4] at h; simp at h
+                | error => rw [f3] at h; simp at h
+                | panic => rw [f3] at h; simp at h
+              | error => rw [f2] at h; simp at h
+              | panic => rw [f2] at h; simp at h
+            | error => rw [f1] at h; simp at h
+            | panic => rw [f1] at h; simp at h
+        | error => rw [h3] at h; simp at h
+        | panic => rw [h3] at h; simp at h
+    | error => rw [h2] at h; simp at h
+    | panic => rw [h2] at h; simp at h
+  | error => rw [h1] at h; simp at h
+  | panic => rw [h1] at h; simp at h
 
 /-! ## Round 2 -/
 
@@ -682,6 +846,124 @@ theorem decodePoints_noPanic (c : Curve) (data : Bytes) : NoPanic (decodePoints 
       exfalso
       exact sliceFixedN_noPanic data c.byteLen nBits 0 (by omega) h1
 
+/-- Soundness of point decompression: the ordinate returned has the requested
+parity (`elliptic.UnmarshalCompressed` selects the root by its low bit). -/
+def Curve.ParitySound (c : Curve) : Prop := ∀ x odd y, c.decompress x odd = some y → y.testBit 0 = odd
+
+theorem sliceFixedN_ok (data : Bytes) (n : Nat) : ∀ (k off : Nat) (xs : List Nat),
+    sliceFixedN data n k off = .ok xs → off + k * n ≤ data.length →
+    slice data off (off + k * n) = .ok (xs.flatMap (beBytes n)) ∧ xs.length = k ∧ ∀ x ∈ xs, x < 256 ^ n := by
+  intro k
+  induction k with
+  | zero =>
+    intro off xs h hb
+    simp [sliceFixedN] at h
+    subst h
+    refine ⟨?_, rfl, by simp⟩
+    rw [slice_ok_iff]
+    simp at hb ⊢
+    exact hb
+  | succ k ih =>
+    intro off xs h hb
+    simp only [sliceFixedN] at h
+    have hb' : off + n + k * n ≤ data.length := by rw [Nat.succ_mul] at hb; omega
+    cases h1 : slice data off (off + n) with
+    | ok b =>
+      rw [h1] at h; simp only [Res.ok_bind] at h
+      cases h2 : sliceFixedN data n k (off + n) with
+      | ok vs =>
+        rw [h2] at h; simp only [Res.ok_bind, Res.pure_eq, Res.ok.injEq] at h
+        obtain ⟨i1, i2, i3⟩ := ih _ _ h2 hb'
+        have lb : b.length = n := by rw [slice_length _ _ _ _ h1]; omega
+        have hc := slice_concat _ _ _ _ _ _ h1 i1
+        rw [← h]
+        refine ⟨?_, by simp [i2], ?_⟩
+        · have e : off + (k + 1) * n = off + n + k * n := by rw [Nat.succ_mul]; omega
+          rw [e, hc]
+          simp [beBytes_beNat n b lb]
+        · intro x hx
+          simp only [List.mem_cons] at hx
+          rcases hx with rfl | hx
+          · have := beNat_lt b; rwa [lb] at this
+          · exact i3 x hx
+      | error => rw [h2] at h; simp at h
+      | panic => rw [h2] at h; simp at h
+    | error => rw [h1] at h; simp at h
+    | panic => rw [h1] at h; simp at h
+
+theorem decompressAll_ok (c : Curve) (hp : c.ParitySound) (signs : Bytes) : ∀ (xs : List Nat) (i : Nat) (ps : List Point),
+    decompressAll c signs xs i = .ok ps → i + xs.length ≤ 8 * signs.length →
+    ps.map (·.x) = xs ∧ ps.map yOdd = (List.range' i xs.length).map (signBit signs) ∧
+      ∀ p ∈ ps, c.decompress p.x (yOdd p) = some p.y := by
+  intro xs
+  induction xs with
+  | nil => intro i ps h _; simp [decompressAll] at h; subst h; simp
+  | cons x xs ih =>
+    intro i ps h hb
+    simp only [decompressAll] at h
+    rw [pointSign_eq signs i (by simp only [List.length_cons] at hb; omega)] at h
+    simp only [Res.ok_bind] at h
+    cases hd : c.decompress x (signBit signs i) with
+    | none => rw [hd] at h; simp at h
+    | some y =>
+      rw [hd] at h
+      simp only at h
+      cases h2 : decompressAll c signs xs (i + 1) with
+      | ok ps' =>
+        rw [h2] at h; simp only [Res.ok_bind, Res.pure_eq, Res.ok.injEq] at h
+        obtain ⟨i1, i2, i3⟩ := ih _ _ h2 (by simp only [List.length_cons] at hb; omega)
+        have hy : yOdd ⟨x, y⟩ = signBit signs i := hp _ _ _ hd
+        rw [← h]
+        refine ⟨by simp [i1], ?_, ?_⟩
+        · simp only [List.map_cons, List.length_cons, List.range'_succ, hy, i2]
+        · intro p hpm
+          simp only [List.mem_cons] at hpm
+          rcases hpm with rfl | hpm
+          · rw [hy]; exact hd
+          · exact i3 p hpm
+      | error => rw [h2] at h; simp at h
+      | panic => rw [h2] at h; simp at h
+
+theorem encodePoints_decode (c : Curve) (hp : c.ParitySound) (data : Bytes) (ps : List Point)
+    (h : decodePoints c data = .ok ps) :
+    encodePoints c ps = .ok data ∧ ps.length = nBits ∧ (∀ p ∈ ps, fits c p.x) ∧
+      ∀ p ∈ ps, c.decompress p.x (yOdd p) = some p.y := by
+  unfold decodePoints at h
+  split at h
+  · cases h
+  · rename_i hne
+    have hlen : data.length = nBits * c.byteLen + signBytes := Decidable.of_not_not hne
+    cases h1 : sliceFixedN data c.byteLen nBits 0 with
+    | ok xs =>
+      rw [h1] at h; simp only [Res.ok_bind] at h
+      cases h2 : slice data (nBits * c.byteLen) data.length with
+      | ok signs =>
+        rw [h2] at h; simp only [Res.ok_bind] at h
+        obtain ⟨s1, s2, s3⟩ := sliceFixedN_ok _ _ _ _ _ h1 (by omega)
+        have ls : signs.length = signBytes := by rw [slice_length _ _ _ _ h2, hlen]; omega
+        obtain ⟨d1, d2, d3⟩ := decompressAll_ok c hp signs xs 0 ps h (by rw [s2, ls]; decide)
+        have hpl : ps.length = nBits := by rw [← s2, ← d1]; simp
+        have hsigns : bitsToBytes (ps.map yOdd) = signs := by
+          rw [d2, s2]
+          have : List.range' 0 nBits = List.range (8 * signs.length) := by
+            rw [ls, List.range_eq_range']; rfl
+          rw [this, map_signBit_eq_bytesToBits, bitsToBytes_bytesToBits]
+        refine ⟨?_, hpl, ?_, d3⟩
+        · unfold encodePoints
+          rw [if_neg (by simp [hpl])]
+          rw [hsigns, ← List.flatMap_map (f := fun p : Point => p.x) (g := beBytes c.byteLen), d1]
+          simp only [Nat.zero_add] at s1
+          have hc := slice_concat _ _ _ _ _ _ s1 h2
+          rw [slice_full] at hc
+          simp only [Res.ok.injEq] at hc
+          rw [hc]
+        · intro p hpm
+          exact s3 p.x (by rw [← d1]; exact List.mem_map_of_mem hpm)
+      | error => rw [h2] at h; simp at h
+      | panic => rw [h2] at h; simp at h
+    | error => rw [h1] at h; simp at h
+    | panic => rw [h1] at h; simp at h
+
 theorem encodeRound2_eq (c : Curve) (m : Round2) (h : m.choices.length = nBits) :
     encodeRound2 c m = .ok (header magicR2 m.sid ++ (writeChunk c.name ++
       ((m.choices.map (·.x)).flatMap (beBytes c.byteLen) ++ bitsToBytes (m.choices.map yOdd)))) := by
@@ -710,6 +992,41 @@ theorem decodeRound2_noPanic (c : Curve) (data : Bytes) : NoPanic (decodeRound2 
   apply NoPanic.ite; · simp
   apply NoPanic.bind (decodePoints_noPanic _ _); intro ps
   simp
+
+/-- The round-2 format is canonical (given that decompression returns the
+requested parity). -/
+theorem encodeRound2_decode (c : Curve) (hp : c.ParitySound) (data : Bytes) (m : Round2)
+    (h : decodeRound2 c data = .ok m) : encodeRound2 c m = .ok data ∧ m.WF c := by
+  unfold decodeRound2 at h
+  cases h1 : readHeader magicR2 data with
+  | ok a1 =>
+    obtain ⟨sid, r⟩ := a1
+    rw [h1] at h; simp only [Res.ok_bind] at h
+    cases h2 : readChunk r with
+    | ok a2 =>
+      obtain ⟨name, rest⟩ := a2
+      rw [h2] at h; simp only [Res.ok_bind] at h
+      split at h
+      · cases h
+      · rename_i hn
+        have hn : name = c.name := Decidable.of_not_not hn
+        cases h3 : decodePoints c rest with
+        | ok ps =>
+          rw [h3] at h; simp only [Res.ok_bind, Res.pure_eq, Res.ok.injEq] at h
+          obtain ⟨e1, ls⟩ := readHeader_ok _ _ _ _ h1
+          have e2 := readChunk_ok _ _ _ h2
+          obtain ⟨p1, p2, p3, p4⟩ := encodePoints_decode c hp rest ps h3
+          rw [← h]
+          refine ⟨?_, ⟨ls, hn, p2, p3, p4⟩⟩
+          unfold encodeRound2
+          simp only [p1, Res.ok_bind, Res.pure_eq]
+          rw [e1, e2, hn]
+        | error => rw [h3] at h; simp at h
+        | panic => rw [h3] at h; simp at h
+    | error => rw [h2] at h; simp at h
+    | panic => rw [h2] at h; simp at h
+  | error => rw [h1] at h; simp at h
+  | panic => rw [h1] at h; simp at h
 
 theorem decodeRound2_other_curve (c c' : Curve) (hc' : c'.WF) (m : Round2) (hs : m.sid < 2 ^ 64) (enc : Bytes)
     (he : encodeRound2 c' m = .ok enc) (hne : c'.name ≠ c.name) : decodeRound2 c enc = .error := by
